@@ -446,13 +446,25 @@ def explore(ctx, stage, nw, policies, runs_per_policy, judge_fn=judge):
 # ------------------------------------------------------------------------------------------------
 
 def real_leaf_run(ctx, depth, parallel, accept=None):
+    """Real processes; callbacks draw tickets from a shared counter (before the work at start, after it at end) so that the
+    recording is totally ordered without wall-clock time; monitors decide; TLC must explain the recording (code -> spec)."""
     import multiprocessing as mp
     from toasty.pyramid import Pyramid
     d = ctx.mkdtemp("real")
+    ticket = mp.Value("i", 0)
 
     def cb(pos, tile):
+        with ticket.get_lock():
+            ticket.value += 1
+            t0 = ticket.value
+        x = 0
+        for i in range(3000):
+            x += i
+        with ticket.get_lock():
+            ticket.value += 1
+            t1 = ticket.value
         with open(os.path.join(d, "log-%d" % os.getpid()), "a") as f:
-            f.write("%d %d %d %s\n" % (pos.n, pos.x, pos.y, "ok" if (tile is None or tuple(tile.pos) == tuple(pos)) else "geo"))
+            f.write("%d %d %d %s %d %d %d\n" % (pos.n, pos.x, pos.y, "ok" if (tile is None or tuple(tile.pos) == tuple(pos)) else "geo", t0, t1, os.getpid()))
     if accept is None:
         p = Pyramid.new_toast(depth)
     else:
@@ -477,22 +489,45 @@ def real_leaf_run(ctx, depth, parallel, accept=None):
     else:
         alive = val
     seen = []
+    ev = []
     geo_bad = False
     for fn in os.listdir(d):
         for line in open(os.path.join(d, fn)):
             a = line.split()
-            seen.append((int(a[0]), int(a[1]), int(a[2])))
+            pos = (int(a[0]), int(a[1]), int(a[2]))
+            seen.append(pos)
             geo_bad = geo_bad or a[3] != "ok"
+            ev.append((int(a[4]), "s", pos, int(a[6])))
+            ev.append((int(a[5]), "e", pos, int(a[6])))
     ctx.count()
     rep = {"depth": depth, "parallel": parallel, "accept": sorted(accept) if accept else None}
+    bad = False
     if sorted(seen) != sorted(ref):
-        ctx.violation("C03:visit_leaves:items-real", "real-process visit_leaves(parallel=%d) processed %d items, serial mode %d (missing %s)"
-                      % (parallel, len(seen), len(ref), sorted(set(ref) - set(seen))[:4]), rep)
+        bad = ctx.violation("C03:visit_leaves:items-real", "real-process visit_leaves(parallel=%d) processed %d items, serial mode %d (missing %s)"
+                            % (parallel, len(seen), len(ref), sorted(set(ref) - set(seen))[:4]), rep)
     if alive:
-        ctx.violation("C03:visit_leaves:workers-alive-real", "visit_leaves returned with %d live worker processes" % len(alive), rep)
+        bad = ctx.violation("C03:visit_leaves:workers-alive-real", "visit_leaves returned with %d live worker processes" % len(alive), rep) or bad
     if geo_bad:
-        ctx.violation("C03:visit_leaves:geometry-real", "a leaf was delivered with another tile's geometry", rep)
+        bad = ctx.violation("C03:visit_leaves:geometry-real", "a leaf was delivered with another tile's geometry", rep) or bad
     ctx.distinct(("real", depth, parallel, None if accept is None else tuple(sorted(accept))))
+    # code -> spec
+    ev.sort()
+    pids = []
+    for _t, _k, _p, pid in ev:
+        if pid not in pids:
+            pids.append(pid)
+    if kind == "ok" and len(ref) <= 6 and len(pids) <= parallel:
+        idx = {it: i + 1 for i, it in enumerate(ref)}          # producer order = serial order
+        trace = [[k, idx.get(pos, 0), pids.index(pid) + 1] for _t, k, pos, pid in ev]
+        mod = tla.module("TraceConf", ["WorkQueueTrace"], [("NoFaults", "{{}}"), ("TraceSeq", tla.lit(trace))])
+        cfg = ("SPECIFICATION TSpec\nCONSTANTS\n NItems = %d\n NW = %d\n Cap = %d\n FaultSets <- NoFaults\n Checked = TRUE\n FlagFirst = TRUE\n Trace <- TraceSeq\n"
+               "INVARIANT NotExplained\nINVARIANT AtMostOnce\nINVARIANT Bounded\nCHECK_DEADLOCK FALSE\n" % (len(ref), parallel, 2 * parallel))
+        r = ctx.tlc("TraceConf", extra={"TraceConf.tla": mod}, cfg_text=cfg, expect_violation=True, timeout=900, count=False)
+        if r.violated == "NotExplained":
+            ctx.trace_ok()
+            ctx.add_note("real_process_traces_accepted_by_tlc")
+        elif not bad:
+            ctx.drift("real-process visit_leaves trace (%d events, %d workers) is not a behaviour of WorkQueue according to TLC (%s)" % (len(trace), parallel, r.violated))
 
 
 def run(ctx):
